@@ -1,9 +1,11 @@
 /-
 C08 case generator.  One scenario per line:
 
-  `<family> <n> <free> <seed>|<c>:<python>|<c>:<python>|...`
+  `<family> <n> <free> <seed> <opts>|<c>:<python>|<c>:<python>|...`
 
-`n` contexts are created (sys.argv = ['c8', '<i>'], sys.path = ['/p<i>']), then the statements run in
+`n` contexts are created, context i with the ContextOpts named by the i-th two-letter entry of the
+comma-separated `<opts>` (SysArgs then SysPaths, each `N` = nil slice, `E` = empty slice, `S` = supplied:
+sys.argv = ['c8', '<i>'] / sys.path = ['/p<i>']; missing entry = `SS`), then the statements run in
 the given order, statement `<c>:<python>` in the `__main__` module of context c (newlines written
 `\n`).  `free` = 1: the harness additionally lets the n programs run freely on n goroutines
 (GOMAXPROCS 1/4/16, seeded yields) and compares every context's trace with its solo trace.
@@ -28,21 +30,61 @@ def baseHeap : Ref → Option Obj := fun r =>
     | 5 => some { kind := .tuple, frozen := true, items := [.int 1, .int 2] }
     | 6 => some { kind := .list, frozen := false }                 -- the sys implementation's own path list
     | 7 => some { kind := .list, frozen := false }                 -- … and argv list (replaced by NewContext)
+    | 8 => some { kind := .list, frozen := false, items := [.int 1, .int 2] }      -- c8a.lst
+    | 9 => some { kind := .dict, frozen := false, fields := [("ck", .int 1)] }      -- c8a.cfg
+    | 10 => some { kind := .list, frozen := false, items := [.int 1, .int 2] }     -- what the body of c8s binds to lst
+    | 11 => some { kind := .dict, frozen := false, fields := [("ck", .int 1)] }     -- … and to cfg
     | _ => Option.none
   else Option.none
 
+/-- the part of the registry the generated programs can tell apart.  `c8a` (Go Globals with a tuple,
+a list and a dict) and `c8s` are registered by the harness.  `c8s` is SOURCE-defined
+(`CodeSrc: "val = 41 + 1\nlst = [1, 2]\ncfg = {'ck': 1}\n"`): the model does not execute module
+bodies; a body that is a sequence of constant bindings is represented by the values it binds, which every
+instantiation creates anew – the same thing `instanceGlobals` does with list / dict Globals (only
+meaningful with `shallowGlobals = false`, the only setting the generator uses). -/
 def stdRegistry : List Impl := [
-  { name := "builtins", globals := [("int", .ref (shr 0)), ("float", .ref (shr 1)), ("ValueError", .ref (shr 2))], methods := ["len"] },
+  { name := "builtins", globals := [("int", .ref (shr 0)), ("float", .ref (shr 1)), ("ValueError", .ref (shr 2))], methods := ["len", "print"] },
   { name := "sys", globals := [("stdout", .ref (shr 3)), ("path", .ref (shr 6)), ("argv", .ref (shr 7))], methods := ["exit"] },
   { name := "os", globals := [("environ", .ref (shr 4)), ("sep", .str "/")], methods := ["getcwd"] },
   { name := "math", globals := [("pi", .flt "3.141592653589793")], methods := ["sqrt"] },
-  { name := "c8a", globals := [("val", .int 7), ("name", .str "c8a"), ("tup", .ref (shr 5))], methods := ["f"] }
+  { name := "string", globals := [("digits", .str "0123456789")], methods := ["capwords"] },
+  { name := "time", globals := [], methods := ["sleep"] },
+  { name := "c8a", globals := [("val", .int 7), ("name", .str "c8a"), ("tup", .ref (shr 5)), ("lst", .ref (shr 8)), ("cfg", .ref (shr 9))], methods := ["f"] },
+  { name := "c8s", globals := [("val", .int 42), ("lst", .ref (shr 10)), ("cfg", .ref (shr 11))], methods := [] }
 ]
 
 def baseWorld : World := { heap := baseHeap, next := fun _ => 0, registry := stdRegistry, stores := fun _ => Option.none }
 
 def stdWorld (n : Nat) : World :=
   (List.range n).foldl (fun w c => newContext w c ["c8", toString c] ["/p" ++ toString c]) baseWorld
+
+/-- how one of the two ContextOpts slices is given: nil, empty, or supplied -/
+inductive OptK where
+  | nil | empty | some
+deriving DecidableEq, Repr, Inhabited
+
+def OptK.letter : OptK → String
+  | .nil => "N" | .empty => "E" | .some => "S"
+
+abbrev Opts := List (OptK × OptK)   -- per context: (SysArgs, SysPaths); missing = (some, some)
+
+def optOf (opts : Opts) (c : Nat) : OptK × OptK := opts.getD c (.some, .some)
+
+def optArgv (c : Nat) : OptK → List String
+  | .some => ["c8", toString c]
+  | _ => []
+
+def optPath (c : Nat) : OptK → List String
+  | .some => ["/p" ++ toString c]
+  | _ => []
+
+/-- n contexts created with the given ContextOpts -/
+def optWorld (opts : Opts) (n : Nat) : World :=
+  (List.range n).foldl (fun w c => newContext w c (optArgv c (optOf opts c).1) (optPath c (optOf opts c).2)) baseWorld
+
+def renderOpts (opts : Opts) (n : Nat) : String :=
+  ",".intercalate ((List.range n).map fun c => (optOf opts c).1.letter ++ (optOf opts c).2.letter)
 
 /-! ### rendering to Python -/
 
@@ -88,9 +130,10 @@ structure Scenario where
   free : Bool
   seed : Nat
   steps : List (Nat × Op)
+  opts : Opts := []
 
 def Scenario.toCase (s : Scenario) : Case :=
-  let w0 := stdWorld s.n
+  let w0 := optWorld s.opts s.n
   let (w1, t) := runSteps w0 s.steps
   let (walk, slots) := walkResult w1 s.n
   let modelV := renderTraces s.n (fun c => traceOf c t) ++ "|walk=" ++ walk ++ (if slots.isEmpty then "" else ":" ++ slots)
@@ -99,13 +142,14 @@ def Scenario.toCase (s : Scenario) : Case :=
   -- non-trivial: some context writes and a DIFFERENT context observes
   let writers := (s.steps.filter (·.2.isWrite)).map (·.1)
   let nt := s.steps.any fun st => !st.2.isWrite && writers.any (· != st.1)
-  let free := s.free && !mentionsEnviron s.steps
-  { input := s!"{s.family} {s.n} {if free then 1 else 0} {s.seed}|" ++ "|".intercalate (s.steps.map fun (c, op) => toString c ++ ":" ++ renderOp op)
+  let free := s.free
+  let bare := (List.range s.n).any fun c => (optOf s.opts c).2 != .some
+  { input := s!"{s.family} {s.n} {if free then 1 else 0} {s.seed} {renderOpts s.opts s.n}|" ++ "|".intercalate (s.steps.map fun (c, op) => toString c ++ ":" ++ renderOp op)
     modelV := modelV
     modelR := ""
     specV := specV
-    tags := (if nt then ["nt"] else []) ++ (if kf && modelV != specV then ["kf=C08-K01"] else [])
-            ++ (if kf then ["os.environ"] else []) ++ [s!"n{s.n}"] }
+    -- no known finding is left (C08-K01 fixed by d8887ef): `kf` only labels the scenarios in its former region
+    tags := (if nt then ["nt"] else []) ++ (if kf then ["os.environ"] else []) ++ (if bare then ["nopaths"] else []) ++ [s!"n{s.n}"] }
 
 /-! ### family A: one mutation × one probe, every interleaving -/
 
@@ -143,6 +187,28 @@ def mutations : List (String × List Op × List Op) := [
   ("class.attr", [.setName "K" (.newClass "K"), .setAttr (P "K") "a" (.int 1), .obs (P "K" [.attr "a"])], [.setName "K" (.newClass "K"), .obs (P "K" [.attr "a"])]),
   ("stdout.attr", [.imp "sys", .setAttr (P "sys" [.attr "stdout"]) "x" (.int 1), .obs (P "sys" [.attr "stdout"])], [.imp "sys", .obs (P "sys" [.attr "stdout"])]),
   ("import.missing", [.imp "nosuch8", .obs (P "nosuch8")], [.imp "nosuch8"]),
+  -- second round: in-place mutation through an alias, builtins rebinding, Go modules, containers in Globals, a source module
+  ("path.alias", [.imp "sys", .setName "p" (.get (P "sys" [.attr "path"])), .append (P "p") (.str "/leak"), .obs (P "p")], [.imp "sys", .obs (P "sys" [.attr "path"])]),
+  ("argv.alias", [.imp "sys", .setName "p" (.get (P "sys" [.attr "argv"])), .append (P "p") (.str "leak"), .obs (P "p")], [.imp "sys", .obs (P "sys" [.attr "argv"])]),
+  ("path.nested", [.imp "sys", .append (P "sys" [.attr "path"]) .newList, .append (P "sys" [.attr "path", .idx 0]) (.int 1), .obs (P "sys" [.attr "path"])], [.imp "sys", .obs (P "sys" [.attr "path"]), .obs (P "sys" [.attr "path", .idx 0])]),
+  ("builtins.print", [.imp "builtins", .setAttr (P "builtins") "print" .none, .obs (P "print")], [.obs (P "print"), .imp "builtins", .obs (P "builtins" [.attr "print"])]),
+  ("builtins.int", [.imp "builtins", .setAttr (P "builtins") "int" (.str "x"), .obs (P "int")], [.obs (P "int")]),
+  ("builtins.swap", [.imp "builtins", .setAttr (P "builtins") "len" (.get (P "print")), .delAttr (P "builtins") "print", .obs (P "len")], [.obs (P "len"), .obs (P "print")]),
+  ("math.method", [.imp "math", .setAttr (P "math") "sqrt" (.int 5), .obs (P "math" [.attr "sqrt"])], [.imp "math", .obs (P "math" [.attr "sqrt"])]),
+  ("time.attr", [.imp "time", .setAttr (P "time") "zone" (.str "Z"), .obs (P "time" [.attr "zone"])], [.imp "time", .obs (P "time" [.attr "zone"])]),
+  ("time.method", [.imp "time", .delAttr (P "time") "sleep", .obs (P "time" [.attr "sleep"])], [.imp "time", .obs (P "time" [.attr "sleep"])]),
+  ("string.digits", [.imp "string", .setAttr (P "string") "digits" (.str "9"), .obs (P "string" [.attr "digits"])], [.imp "string", .obs (P "string" [.attr "digits"]), .obs (P "string" [.attr "digits", .idx 1])]),
+  ("string.del", [.imp "string", .delAttr (P "string") "digits", .obs (P "string" [.attr "digits"])], [.imp "string", .obs (P "string" [.attr "digits"])]),
+  ("string.name", [.imp "string", .setAttr (P "string") "__name__" (.str "hijack"), .obs (P "string")], [.imp "string", .obs (P "string")]),
+  ("c8a.lst", [.imp "c8a", .append (P "c8a" [.attr "lst"]) (.int 3), .obs (P "c8a" [.attr "lst"])], [.imp "c8a", .obs (P "c8a" [.attr "lst"])]),
+  ("c8a.lst.alias", [.imp "c8a", .setName "l" (.get (P "c8a" [.attr "lst"])), .append (P "l") .newDict, .setKey (P "l" [.idx 2]) "z" (.int 1), .obs (P "l")], [.imp "c8a", .obs (P "c8a" [.attr "lst"]), .obs (P "c8a" [.attr "lst", .idx 2])]),
+  ("c8a.cfg", [.imp "c8a", .setKey (P "c8a" [.attr "cfg"]) "ck" (.int 0), .setKey (P "c8a" [.attr "cfg"]) "n" (.int 5), .obs (P "c8a" [.attr "cfg"])], [.imp "c8a", .obs (P "c8a" [.attr "cfg"]), .obs (P "c8a" [.attr "cfg", .key "n"])]),
+  ("c8a.cfg.attr", [.imp "c8a", .delAttr (P "c8a" [.attr "cfg"]) "ck", .obs (P "c8a" [.attr "cfg"])], [.imp "c8a", .obs (P "c8a" [.attr "cfg", .key "ck"])]),
+  ("c8s.val", [.imp "c8s", .setAttr (P "c8s") "val" (.int 0), .obs (P "c8s" [.attr "val"])], [.imp "c8s", .obs (P "c8s" [.attr "val"])]),
+  ("c8s.lst", [.imp "c8s", .append (P "c8s" [.attr "lst"]) (.int 3), .obs (P "c8s" [.attr "lst"])], [.imp "c8s", .obs (P "c8s" [.attr "lst"])]),
+  ("c8s.cfg", [.imp "c8s", .setKey (P "c8s" [.attr "cfg"]) "ck" (.int 0), .obs (P "c8s" [.attr "cfg"])], [.imp "c8s", .obs (P "c8s" [.attr "cfg"])]),
+  ("c8s.new", [.imp "c8s", .setAttr (P "c8s") "extra" .newList, .append (P "c8s" [.attr "extra"]) (.int 1), .obs (P "c8s" [.attr "extra"])], [.imp "c8s", .obs (P "c8s" [.attr "extra"])]),
+  ("environ.len", [.imp "os", .setKey (P "os" [.attr "environ"]) "ZD" (.str "1"), .obs (P "os" [.attr "environ"])], [.imp "os", .obs (P "os" [.attr "environ"])]),
   ("main.name", [.setName "__name__" (.str "hijack"), .obs (P "__name__")], [.obs (P "__name__")])
 ]
 
@@ -153,17 +219,41 @@ def merges : List α → List α → List (List α)
   | x :: xs, y :: ys => (merges xs (y :: ys)).map (x :: ·) ++ (merges (x :: xs) ys).map (y :: ·)
 termination_by xs ys => xs.length + ys.length
 
+/-- the ContextOpts family A rotates through (by interleaving number) -/
+def optsCycle : Array Opts := #[
+  [(.some, .some), (.some, .some)], [(.empty, .empty), (.empty, .empty)], [(.nil, .nil), (.nil, .nil)],
+  [(.some, .empty), (.nil, .some)], [(.empty, .nil), (.some, .empty)]]
+
 def familyA (limit : Nat) : List Scenario :=
   mutations.flatMap fun (name, mu, probe) =>
     let ms := merges (mu.map fun op => (0, op)) (probe.map fun op => (1, op))
     (ms.take limit).zipIdx.map fun (steps, i) =>
-      { family := "A:" ++ name, n := 2, free := i == 0, seed := i, steps := steps }
+      { family := "A:" ++ name, n := 2, free := i < 2, seed := i, steps := steps, opts := optsCycle[i % optsCycle.size]! }
+
+/-! ### family O: the sys.path / sys.argv mutations under EVERY combination of ContextOpts -/
+
+def optKinds : List OptK := [.nil, .empty, .some]
+
+/-- all 81 ways to give SysArgs / SysPaths (nil, empty, supplied) to two contexts -/
+def allOpts2 : List Opts :=
+  optKinds.flatMap fun a0 => optKinds.flatMap fun p0 => optKinds.flatMap fun a1 => optKinds.map fun p1 => [(a0, p0), (a1, p1)]
+
+def sysMutations : List String := ["path.append", "argv.append", "path.alias", "argv.alias", "path.nested", "path.rebind", "path.del"]
+
+def familyO (perOpts : Nat) : List Scenario :=
+  (mutations.filter fun m => sysMutations.contains m.1).flatMap fun (name, mu, probe) =>
+    let ms := merges (mu.map fun op => (0, op)) (probe.map fun op => (1, op))
+    -- the interleavings in which the probe runs last / first / in the middle
+    let pick := [ms.head?, ms.getLast?, ms[ms.length / 2]?].filterMap id |>.take perOpts
+    allOpts2.zipIdx.flatMap fun (opts, j) =>
+      pick.zipIdx.map fun (steps, i) =>
+        { family := "O:" ++ name, n := 2, free := i == 0 && j % 9 == 0, seed := j * 10 + i, steps := steps, opts := opts }
 
 /-! ### family B: seeded programs over 2 / 4 / 16 contexts -/
 
 def names : Array String := #["x", "y", "lst", "d", "K"]
-def mods : Array String := #["sys", "os", "math", "builtins", "c8a", "nosuch8"]
-def attrs : Array String := #["path", "argv", "environ", "pi", "val", "tup", "a", "b", "len", "sep", "stdout", "x"]
+def mods : Array String := #["sys", "os", "math", "builtins", "c8a", "nosuch8", "sys", "c8s", "string", "time", "c8a"]
+def attrs : Array String := #["path", "argv", "environ", "pi", "val", "tup", "a", "b", "len", "sep", "stdout", "x", "lst", "cfg", "ck", "digits", "print", "path", "argv"]
 
 def genPath (r : Rng) : Rng × Path :=
   let (r, k) := r.nat 10
@@ -281,12 +371,20 @@ def familyB (seed count : Nat) : List Scenario := Id.run do
       progs := progs ++ [p]
     let (r', steps) := interleave r progs
     r := r'
-    out := { family := "B:n" ++ toString n, n := n, free := true, seed := seed * 100000 + i, steps := steps } :: out
+    let mut opts : Opts := []
+    for _ in List.range n do
+      let (r1, a) := r.pick #[OptK.nil, OptK.empty, OptK.some]
+      let (r2, p) := r1.pick #[OptK.nil, OptK.empty, OptK.some]
+      r := r2
+      opts := opts ++ [(a, p)]
+    out := { family := "B:n" ++ toString n, n := n, free := true, seed := seed * 100000 + i, steps := steps, opts := opts } :: out
   return out.reverse
 
 def genMain (tier : String) (seed : Nat) : IO Unit := do
   let thorough := tier == "thorough"
   for s in familyA (if thorough then 1000 else 12) do
+    IO.println s.toCase.line
+  for s in familyO (if thorough then 3 else 1) do
     IO.println s.toCase.line
   for s in familyB seed (if thorough then 12000 else 260) do
     IO.println s.toCase.line
@@ -294,5 +392,6 @@ def genMain (tier : String) (seed : Nat) : IO Unit := do
   for i in List.range (if thorough then 12 else 3) do
     IO.println ({ input := s!"C:sharedcode 16 0 {seed * 1000 + i}", modelV := "same", specV := "same", tags := ["nt", "n16"] } : Case).line
     IO.println ({ input := s!"C:compile 16 0 {seed * 1000 + i}", modelV := "same", specV := "same", tags := ["nt", "n16"] } : Case).line
+    IO.println ({ input := s!"C:srcfile {if i % 2 == 0 then 4 else 16} 0 {seed * 1000 + i}", modelV := "same", specV := "same", tags := ["nt", "nopaths"] } : Case).line
 
 end GPy.C08
